@@ -292,9 +292,7 @@ def specExitTrap (fuel : Nat) (s : St) : St × Res :=
     let (s1, r) := specList fuel ⟨0, false⟩ s body
     match r with
     | .outOfFuel => (s1, .outOfFuel)
-    | .break_ (.interrupt (some _)) =>
-      let r' := Res.break_ (.interrupt (some s1.status))
-      (s1.applyResult r', r')
+    | .break_ (.interrupt (some _)) => (s1.applyResult r, r)
     | .break_ (.interrupt none) => (s1, r)
     | r => ({ s1 with status := prev }.applyResult r, r)
 
